@@ -83,10 +83,58 @@ def _mix(t):
     return out
 
 
+@st.composite
+def packed_problem(draw, tier):
+    """Few chips, two or three resources, many vertices of unequal size that
+    each name only the resources they use, placed feasibly by construction
+    and filling the machine to 60-100 %: every annealing swap has to move
+    several vertices out of the way and the way back is tight."""
+    w, h = draw(st.sampled_from([(2, 1), (1, 2), (3, 1), (2, 2), (1, 4),
+                                 (3, 2)]))
+    rnames = draw(st.sampled_from([["Cores", "SDRAM"], ["Cores", "U"],
+                                   ["Cores", "SDRAM", "SRAM"],
+                                   ["SDRAM", "U", "V"]]))
+    cap = dict((r, draw(st.integers(4, 12))) for r in rnames)
+    chips = [(x, y) for x in range(w) for y in range(h)]
+    vertices = []
+    for c in chips:
+        room = dict(cap)
+        fill = draw(st.sampled_from([0.6, 0.8, 1.0, 1.0]))
+        for _ in range(draw(st.integers(1, 6))):
+            needs = {}
+            for r in draw(st.lists(st.sampled_from(rnames), min_size=1,
+                                   max_size=len(rnames), unique=True)):
+                top = room[r] - int(cap[r] * (1 - fill))
+                if top >= 1:
+                    needs[r] = draw(st.integers(1, max(1, min(top, 6))))
+                    room[r] -= needs[r]
+            if needs:
+                vertices.append({"name": "v%d" % len(vertices),
+                                 "needs": needs})
+    names = [v["name"] for v in vertices]
+    vertices = draw(st.permutations(vertices)) if vertices else []
+    return {"machine": {"w": w, "h": h, "mesh": draw(st.booleans()),
+                        "resources": cap, "exceptions": [],
+                        "dead_chips": [], "dead_links": []},
+            "vertices": list(vertices),
+            "nets": draw(gp.nets_strategy(names, max_nets=8, max_fan=4,
+                                          min_nets=1)) if names else [],
+            "constraints": [], "vkind": draw(st.sampled_from(
+                pr.VERTEX_KINDS)), "subcls": False,
+            "seed": draw(st.integers(0, 10 ** 6)), "packed": True}
+
+
 def make_strategy(placer, premise):
     @st.composite
     def strat(draw, tier):
         small = placer == "sa-python"
+        if placer in ("sa-python", "sa-c") and not premise and \
+                draw(st.integers(0, 2)) == 0:
+            case = draw(packed_problem(tier))
+            case["placer"] = placer
+            case["options"] = draw(options_strategy(placer, case))
+            case["options"]["effort"] = draw(st.sampled_from([0.1, 0.5, 1.0]))
+            return case
         case = draw(gp.problem(tier, premise=premise,
                                max_v=(10 if tier == "quick" else 20)
                                if small else None,
@@ -222,12 +270,15 @@ def run_placer(case):
 def _nontrivial(case):
     m = case["machine"]
     return (len(case["vertices"]) >= 2 and len(pr.live_chips(m)) >= 2 and
-            (bool(case["constraints"]) or bool(m["exceptions"])))
+            (bool(case["constraints"]) or bool(m["exceptions"]) or
+             bool(case.get("packed"))))
 
 
 def check_sound(case):
     kind, out = run_placer(case)
-    cls = [case["placer"]]
+    cls = [case["placer"]] + (["packed"] if case.get("packed") else []) + \
+        (["subclassed-constraints"] if case.get("subcls") and
+         case["constraints"] else [])
     bad = any(c.get("bad") for c in case["constraints"])
     if kind == "failed":
         return {"documented": True, "nontrivial": False,
